@@ -297,8 +297,59 @@ def _inline_helpers(tree):
     return n
 
 
+KNOWN_FUNCS = {"get_route_module_name": 1, "get_update_module_name": 2, "get_merge_module_name": 1, "validate_ipv4": 1, "send_ping": 1,
+               "fetch_mac": 2, "mac_to_int": 1, "mac_to_hex": 1, "parse_args": 0, "register_signal_handlers": 1}
+KNOWN_PARAMS = {
+    ("RouteController", "add_new_route_entry"): 2, ("RouteController", "_add_neighbor"): 3, ("RouteController", "_create_update_module"): 3,
+    ("RouteController", "add_unresolved_new_neighbor"): 2, ("RouteController", "_create_module_links"): 5, ("RouteController", "delete_route_entry"): 2,
+    ("RouteController", "_forget_unresolved_route"): 2, ("RouteController", "_probe_addr"): 2, ("RouteController", "_get_gate_idx"): 3,
+    ("RouteController", "_netlink_neighbor_handler"): 3, ("RouteController", "_netlink_route_handler"): 3, ("RouteController", "_parse_route_entry_msg"): 2,
+    ("RouteController", "_ping_missing_entries"): 1, ("RouteController", "bootstrap_routes"): 1, ("RouteController", "register_handlers"): 1,
+    ("RouteController", "start_pinging_missing_entries"): 1, ("RouteController", "cleanup"): 2, ("RouteController", "reconfigure"): 2,
+    ("BessController", "add_route_to_module"): 4, ("BessController", "delete_module_route_entry"): 2, ("BessController", "create_module"): 4,
+    ("BessController", "link_modules"): 5, ("BessController", "delete_module"): 2, ("BessController", "_get_bess"): 3,
+}
+
+
+def _restore_names(tree):
+    """N0: a frozen function or method that is gone and a new one with the same number of parameters — one
+    candidate on each side — are one declaration under two names; it gets the frozen name back."""
+    notes = []
+    ren_attr, ren_name = {}, {}
+    for cls in tree.body:
+        if isinstance(cls, ast.ClassDef) and cls.name in KNOWN_METHODS:
+            have = {m.name: m for m in cls.body if isinstance(m, ast.FunctionDef)}
+            missing = [k for k in KNOWN_METHODS[cls.name] if k not in have and (cls.name, k) in KNOWN_PARAMS]
+            fresh = [m for k, m in have.items() if k not in KNOWN_METHODS[cls.name]]
+            for k in missing:
+                cand = [m for m in fresh if len(m.args.args) == KNOWN_PARAMS[(cls.name, k)]]
+                others = [k2 for k2 in missing if KNOWN_PARAMS[(cls.name, k2)] == KNOWN_PARAMS[(cls.name, k)]]
+                if len(cand) == 1 and len(others) == 1:
+                    notes.append(f"{cls.name}.{cand[0].name} is {k}")
+                    ren_attr[cand[0].name] = k
+                    cand[0].name = k
+    have = {f.name: f for f in tree.body if isinstance(f, ast.FunctionDef)}
+    missing = [k for k in KNOWN_FUNCS if k not in have]
+    fresh = [f for k, f in have.items() if k not in KNOWN_FUNCS]
+    for k in missing:
+        cand = [f for f in fresh if len(f.args.args) == KNOWN_FUNCS[k]]
+        others = [k2 for k2 in missing if KNOWN_FUNCS[k2] == KNOWN_FUNCS[k]]
+        if len(cand) == 1 and len(others) == 1:
+            notes.append(f"{cand[0].name} is {k}")
+            ren_name[cand[0].name] = k
+            cand[0].name = k
+    if ren_attr or ren_name:
+        for n in ast.walk(tree):
+            if isinstance(n, ast.Attribute) and n.attr in ren_attr:
+                n.attr = ren_attr[n.attr]
+            elif isinstance(n, ast.Name) and n.id in ren_name:
+                n.id = ren_name[n.id]
+    return notes
+
+
 def normalize_tree(tree):
-    out = {"walrus_hoisted": _hoist_walrus(tree), "helpers_expanded": _inline_helpers(tree)}
+    out = {"renamed": _restore_names(tree)}
+    out.update({"walrus_hoisted": _hoist_walrus(tree), "helpers_expanded": _inline_helpers(tree)})
     out["walrus_hoisted"] += _hoist_walrus(tree)
     out["ifs_inverted"] = _invert_ifs(tree)
     ast.fix_missing_locations(tree)
